@@ -951,66 +951,7 @@ func c03(c *core.Ctx) {
 	})
 
 	c.Clause("C03.6", "signers are looked up in the set the quorum counts: every per-height deputy query of deputynode.Manager takes its nodes from GetDeputiesByHeight(height, true), which cuts the term's node list to DeputyCount")
-	c.Run("one-deputy-set", func() {
-		const dn = "chain/deputynode"
-		gdh := c.Method(dn+".Manager", "GetDeputiesByHeight")
-		n := 0
-		for _, name := range []string{"GetDeputiesCount", "TwoThirdDeputyCount", "GetDeputyByAddress", "GetDeputyByNodeID", "GetDeputyByDistance", "GetMinerDistance"} {
-			fn := c.Fn(dn + ".Manager." + name)
-			calls := core.CallsIn(fn, gdh)
-			ok := len(calls) == 1
-			if ok {
-				a := calls[0].Common().Args
-				bv, isC := core.BoolConst(a[2])
-				ok = a[1] == fn.Params[1] && isC && bv
-			}
-			// every non-nil, non-constant result is computed from that list
-			if ok {
-				for _, r := range core.Returns(fn) {
-					v := core.RetVal(r, 0)
-					if core.IsNilConst(v) {
-						continue
-					}
-					if _, isConst := v.(*ssa.Const); isConst {
-						continue
-					}
-					if !core.Slice(v)[calls[0].Value()] {
-						ok = false
-					}
-				}
-			}
-			n++
-			c.Check("Manager."+name+"←GetDeputiesByHeight(height,true)", "sibling-agreement", ok, fn.Pos(), "%s answers from the deputy list of the height it is asked about (the list the quorum threshold is computed from), and from nothing else", name)
-		}
-		c.Floor("deputy-queries", n, 6)
-		g := c.Fn(dn + ".Manager.GetDeputiesByHeight")
-		cut := core.CallsIn(g, c.Method(dn+".TermRecord", "GetDeputies"))
-		okc := len(cut) >= 1
-		for _, ci := range cut {
-			if !core.SliceHasField(core.Slice(ci.Common().Args[1]), c.FieldVar(dn+".Manager", "DeputyCount")) {
-				okc = false
-			}
-		}
-		for _, r := range core.Returns(g) {
-			v := core.RetVal(r, 0)
-			sl := core.Slice(v)
-			from := false
-			for _, ci := range cut {
-				if sl[ci.Value()] {
-					from = true
-				}
-			}
-			if !from {
-				// the empty list on error
-				if _, isMk := v.(*ssa.MakeSlice); !isMk && !core.IsNilConst(v) {
-					if len(sl) > 3 {
-						okc = false
-					}
-				}
-			}
-		}
-		c.Check("GetDeputiesByHeight:cut-to-DeputyCount", "value-flow", okc, g.Pos(), "the deputy list handed out is the term's node list cut to DeputyCount (or empty)")
-	})
+	c.Run("one-deputy-set", func() { oneDeputySet(c) })
 
 	c.NotDecidedf("fork-choice correctness (longest / smallest hash), needSwitchFork's distance arithmetic and the value test `newHead != oldHead` before SetHeadBlock")
 	c.NotDecidedf("'never forks' across nodes (a distributed property); float rounding and integer width of the two-thirds threshold; that CBlock.CollectToParent / UnConfirmBlocks really hold only descendants of the stable block")
@@ -1059,4 +1000,68 @@ func sameGuards(a, b []actGuard) bool {
 // precedesLoop: instruction a can run before b, never after it (a is not part of b's loop).
 func precedesLoop(a, b ssa.Instruction) bool {
 	return core.ReachableAfter(a, b) && !core.ReachableAfter(b, a)
+}
+
+// oneDeputySet: every per-height deputy query of deputynode.Manager answers from GetDeputiesByHeight(height, true), which cuts the term's
+// node list to DeputyCount. Evaluated under C03 (signers are looked up in the set the quorum counts) and C13 (round length and rotation
+// are computed over one and the same list).
+func oneDeputySet(c *core.Ctx) {
+	const dn = "chain/deputynode"
+	gdh := c.Method(dn+".Manager", "GetDeputiesByHeight")
+	n := 0
+	for _, name := range []string{"GetDeputiesCount", "TwoThirdDeputyCount", "GetDeputyByAddress", "GetDeputyByNodeID", "GetDeputyByDistance", "GetMinerDistance"} {
+		fn := c.Fn(dn + ".Manager." + name)
+		calls := core.CallsIn(fn, gdh)
+		ok := len(calls) == 1
+		if ok {
+			a := calls[0].Common().Args
+			bv, isC := core.BoolConst(a[2])
+			ok = a[1] == fn.Params[1] && isC && bv
+		}
+		// every non-nil, non-constant result is computed from that list
+		if ok {
+			for _, r := range core.Returns(fn) {
+				v := core.RetVal(r, 0)
+				if core.IsNilConst(v) {
+					continue
+				}
+				if _, isConst := v.(*ssa.Const); isConst {
+					continue
+				}
+				if !core.Slice(v)[calls[0].Value()] {
+					ok = false
+				}
+			}
+		}
+		n++
+		c.Check("Manager."+name+"←GetDeputiesByHeight(height,true)", "sibling-agreement", ok, fn.Pos(), "%s answers from the deputy list of the height it is asked about (the list the quorum threshold is computed from), and from nothing else", name)
+	}
+	c.Floor("deputy-queries", n, 6)
+	g := c.Fn(dn + ".Manager.GetDeputiesByHeight")
+	cut := core.CallsIn(g, c.Method(dn+".TermRecord", "GetDeputies"))
+	okc := len(cut) >= 1
+	for _, ci := range cut {
+		if !core.SliceHasField(core.Slice(ci.Common().Args[1]), c.FieldVar(dn+".Manager", "DeputyCount")) {
+			okc = false
+		}
+	}
+	for _, r := range core.Returns(g) {
+		v := core.RetVal(r, 0)
+		sl := core.Slice(v)
+		from := false
+		for _, ci := range cut {
+			if sl[ci.Value()] {
+				from = true
+			}
+		}
+		if !from {
+			// the empty list on error
+			if _, isMk := v.(*ssa.MakeSlice); !isMk && !core.IsNilConst(v) {
+				if len(sl) > 3 {
+					okc = false
+				}
+			}
+		}
+	}
+	c.Check("GetDeputiesByHeight:cut-to-DeputyCount", "value-flow", okc, g.Pos(), "the deputy list handed out is the term's node list cut to DeputyCount (or empty)")
 }
